@@ -5,6 +5,7 @@ import (
 	"fmt"
 	"os"
 	"path/filepath"
+	"strconv"
 
 	"verif/harness/evid"
 )
@@ -33,6 +34,14 @@ func main() {
 	}
 	if id == "basm-run" && len(os.Args) >= 3 {
 		os.Exit(basmRunCmd(os.Args[2]))
+	}
+	if id == "frag-run" && len(os.Args) >= 5 { // development aid: settle a fragment-graph source on two input values
+		a, _ := strconv.ParseUint(os.Args[3], 10, 64)
+		b, _ := strconv.ParseUint(os.Args[4], 10, 64)
+		src, _ := os.ReadFile(os.Args[2])
+		outs, err := fragRun(string(src), 16, []uint64{a, b})
+		fmt.Println(outs, err)
+		os.Exit(0)
 	}
 	if id == "go-run" && len(os.Args) >= 3 { // development aid: compile a Go source with bondgo and simulate it
 		os.Exit(goRunCmd(os.Args[2]))
